@@ -50,12 +50,12 @@ type AuthGrid struct {
 	uncovered           []string
 }
 
-var authSignerSets = []string{"S", "M1", "AL", "CM", "K", "K+AL", "K+CM", "M-minority"}
+var authSignerSets = []string{"S", "M1", "AL", "CM", "K", "K+AL", "K+CM", "M-minority", "AUD"}
 
 func NewAuthGrid(n int) *AuthGrid { return &AuthGrid{N: n} }
 func (d *AuthGrid) Name() string  { return fmt.Sprintf("witnesses-n%d", d.N) }
 func (d *AuthGrid) Rule() string {
-	return "every method of the eleven manifests compiled from the tree (table rows; manifest methods without a row are listed as uncovered) x signer sets {stranger, one Alphabet member, Alphabet 2/3+1, committee majority, named key, named key+Alphabet, named key+majority, floor(2n/3) single members}; non-trivial = a non-safe method under a signer set; distinct by (method, signer set)"
+	return "every method of the eleven manifests compiled from the tree (table rows; manifest methods without a row are listed as uncovered) x signer sets {stranger, one Alphabet member, Alphabet 2/3+1, committee majority, named key, named key+Alphabet, named key+majority, floor(2n/3) single members, the Inner Ring member outside the committee}; non-trivial = a non-safe method under a signer set; distinct by (method, signer set)"
 }
 
 func (d *AuthGrid) Build() *World {
@@ -200,6 +200,8 @@ func (d *AuthGrid) witnesses(w *World, set string, keys []util.Uint160) []util.U
 			out = append(out, w.Comm)
 		case "K":
 			out = append(out, keys...)
+		case "AUD":
+			out = append(out, d.aud.Hash)
 		case "M-minority":
 			for i := 0; i < d.N*2/3; i++ { // one short of the Alphabet threshold, as single keys
 				out = append(out, w.Members[i].Hash)
@@ -359,6 +361,8 @@ func authTable() []authRow {
 	rows := []authRow{
 		// ---- alphabet ----
 		{"alphabet", "emit", none, k("M0"), ""},
+		// the Inner Ring is somebody else: still the Alphabet member of the contract's index, not the ring member of that index
+		{"alphabet", "emit", none, k("M0"), "redesignate"},
 		{"alphabet", "vote", func(d *AuthGrid, w *World) []any { return []any{int64(2), []any{w.Pubs[0].Bytes()}} }, al, ""},
 		{"alphabet", "update", self("alphabet"), cm, "update"},
 		{"alphabet", "onNEP17Payment", func(d *AuthGrid, w *World) []any { return []any{d.u.Hash, int64(1), nil} }, nil, ""},
